@@ -10,6 +10,8 @@ import (
 	"log/slog"
 	"net"
 	"net/http"
+	"os"
+	"regexp"
 	"sort"
 	"strings"
 	"sync"
@@ -155,6 +157,7 @@ type World struct {
 	pools      []*pgxpool.Pool
 	actorsLive int
 
+	stMu        sync.Mutex
 	outcomeQ    []outcomeRec
 	onHookEvent func(name string, kv ...any)
 	projCache   map[string][]string
@@ -216,6 +219,9 @@ func (simTransport) RoundTrip(req *http.Request) (*http.Response, error) {
 	}
 	ev := &httpEvent{host: host, url: req.URL.String(), reqs: reqs, batch: batch}
 	key := "http " + host + " " + node.Summary(reqs)
+	if !batch && string(reqs[0].ID) == `"1"` {
+		key += " (poller)" // the head poller uses the fixed request id "1"
+	}
 	v, err := w.sched.Park(req.Context(), "http", key, ev)
 	if err != nil {
 		return nil, err
@@ -291,6 +297,21 @@ func (w *World) gate(ev *fakepg.Event) (fakepg.Verdict, string) {
 	}
 	if w.dead {
 		return fakepg.DropBefore, ""
+	}
+	if ev.Kind == "copy" || strings.HasPrefix(ev.Class, "copy ") {
+		// COPY groups cannot park (pgx waits for the server on an internal
+		// mutex during COPY, which synctest does not count as durably
+		// blocked): the verdict is drawn inline. Exactly one goroutine tree
+		// runs per scheduler step and the scheduler itself is inside
+		// synctest.Wait, so this draw is in the deterministic causal chain
+		// of the released event. A COPY only touches the transaction's
+		// private overlay, so no interleaving observable by another session
+		// is lost.
+		w.stMu.Lock()
+		d := w.decidePG(ev)
+		w.sched.Log.Add("%d inline pg %s %s -> %d%s", w.step, ev.Owner, ev.Class, d.v, d.code)
+		w.stMu.Unlock()
+		return d.v, d.code
 	}
 	v, _ := w.sched.Park(nil, "pg", "pg "+ev.Owner+" "+ev.Class, ev)
 	d := v.(pgDecision)
@@ -502,10 +523,22 @@ func (w *World) safeConverge(p *pairState, task *shovel.Task) (err error) {
 	defer func() {
 		if r := recover(); r != nil {
 			err = fmt.Errorf("PANIC: %v", r)
-			w.violate("panic", "pair %s: Converge panicked: %v", p.key, r)
+			w.violate(panicClass(r), "pair %s: Converge panicked: %v", p.key, r)
 		}
 	}()
 	return task.Converge()
+}
+
+var digitsRE = regexp.MustCompile(`[0-9]+`)
+
+// panicClass names a recovered panic by its message with numbers blanked, so
+// that different panics are different violation classes.
+func panicClass(r any) string {
+	m := digitsRE.ReplaceAllString(fmt.Sprint(r), "N")
+	if len(m) > 70 {
+		m = m[:70]
+	}
+	return "panic: " + m
 }
 
 func outcomeName(err error) string {
@@ -545,6 +578,12 @@ func Run(t *testing.T, plan *Plan, st *core.Stream, extra Extra, keepLog bool) (
 		synctest.Test(t, func(t *testing.T) {
 			w.sched = core.NewSched()
 			w.sched.Log.Keep = keepLog
+			if sp := os.Getenv("VERIF_STREAMLOG"); sp != "" {
+				if f, err := os.Create(sp); err == nil {
+					w.sched.Log.Sink = f
+					w.sched.Log.Keep = true
+				}
+			}
 			w.clock = core.NewClock()
 			w.srv = fakepg.NewServer()
 			w.srv.DB.Now = time.Now
